@@ -56,6 +56,12 @@ Definition svc_entries (transport : list string) (s : svc) : list entry :=
   flat_map (fun k => map (mk_entry s k) (sort_by r_name (s_rpcs s))) (kinds transport s).
 Definition metadata_entries (transport : list string) (svcs : list svc) : list entry :=
   flat_map (svc_entries transport) (sort_by s_name svcs).
+(* the client entries: one per service and client kind, with the client class, whether or not the service declares rpcs
+   (transport = service_desc.clients.get_or_create(tprt); transport.library_client = client_name  is outside the method loop) *)
+Definition metadata_clients (transport : list string) (svcs : list svc) : list (string * string * string) :=
+  flat_map (fun s => map (fun k => (s_name s, fst k, snd k)) (kinds transport s)) (sort_by s_name svcs).
+Definition client_eqb (a b : string * string * string) : bool :=
+  String.eqb (fst (fst a)) (fst (fst b)) && String.eqb (snd (fst a)) (snd (fst b)) && String.eqb (snd a) (snd b).
 (* services that appear in the JSON even when no client kind is selected (get_or_create on the map) *)
 Definition metadata_services (svcs : list svc) : list string := map s_name (sort_by s_name svcs).
 
